@@ -25,6 +25,7 @@ OBLIGATIONS = [
     "VgiVerif.C13.C13_method_bound",
     "VgiVerif.C13.C13_foreign_rejected",
     "VgiVerif.C13.C13_streams_stay_with_method",
+    "VgiVerif.C13.C13_one_endpoint_per_token",
 ]
 TRUSTED = base.TRUSTED
 RULE = (
